@@ -344,6 +344,37 @@ def n5(run, tu):
     run.ob('N5/numbered-anonymous-types-keep-their-prefix', F, '"$1", "$$x" -> "struct $1", "struct $$x"', not keep_wrong, tu.where(fn), 'stripped for: %s' % ''.join(keep_wrong))
 
 
+def n6(run, tu, prefix='N5'):
+    """ctype name -> stored name (_unrealize_name, the key a struct/union/enum is looked up with): a tag keyword is only recognised
+    together with the space that follows it ("structure_t" is a typedef name, key "$structure_t"), and what is skipped is exactly
+    what was compared"""
+    F = '_unrealize_name'
+    f = tu.func(F)
+    lits = []
+    for x in cx.walk(f):
+        if x.get('kind') == 'StringLiteral':
+            v = x.get('value', '')
+            try:
+                v = ast.literal_eval(v) if v.startswith('"') else v
+            except Exception:
+                pass
+            if isinstance(v, str) and re.match(r'^(struct|union|enum)', v):
+                lits.append((v, x))
+    run.need(len(lits) >= 3, '%s: the tag keywords are no longer string constants of the function' % F)
+    for v, x in lits:
+        run.ob('%s/tag-keyword-matched-with-its-separating-space' % prefix, F, repr(v), v.endswith(' ') and v[:-1] in ('struct', 'union', 'enum'), tu.where(x),
+               'a name that merely starts with %r (a typedef called "%sure_t"...) is taken for a tagged type and looked up under the wrong key' % (v, v.strip()))
+    # compared length and skipped length are the keyword's length
+    for c in cx.calls_in(f):
+        if cx.callee_name(c) in ('strncmp', '__builtin_strncmp') and len(cx.call_args(c)) == 3:
+            a = cx.call_args(c)
+            lit = [v for v, x in lits if any(y is x for y in cx.walk(a[1]))]
+            n = cx.render(cx.strip(a[2], casts=True))
+            if lit and n.isdigit():
+                skip = ['&srcname[%d]' % len(lit[0]) in cx.render(y).replace(' ', '') for y in cx.calls_in(f) if cx.callee_name(y) in ('strcpy', '__builtin_strcpy', '__builtin___strcpy_chk')]
+                run.ob('%s/compared-and-skipped-length-is-the-keyword-length' % prefix, F, 'strncmp(srcname, %r, %s)' % (lit[0], n), int(n) == len(lit[0]) and any(skip), tu.where(c))
+
+
 def check(run):
     run.technique = ('name algebra: abstract evaluation (constant propagation with the buffers at symbolic base addresses) of the three splice routines, '
                      'clang-AST rules on the decoration each type constructor chooses, and a three-way decision-table cross-check of the getctype '
@@ -354,6 +385,7 @@ def check(run):
     n3(run, tu)
     n4(run, tu)
     n5(run, tu)
+    n6(run, tu)
     run.assume('that a correctly spliced declaration re-parses to the intended type is the declarator rule of C plus the parsers (C07) and the canonical-ctype cache (C27); '
                'decided here: the splice, the insertion point and the decoration; not decided: argument lists of function names, qualifiers (qualify()), sizes of the declared objects')
     for rule, k in (('N1', 30), ('N2', 5), ('N3', 4), ('N4/three-implementations-decorate-alike', 50), ('N4', 54), ('N5', 2)):
